@@ -231,8 +231,11 @@ impl ServerFx {
                 let _ = t.join();
             }
         }
-        self.kv = None;
-        crate::store::wait_bg_exit(self.base_threads);
+        // (a server on a borrowed handle leaves the store - and the threads the store may have
+        // started since - to its owner; the join above already waited for the server's runtime)
+        if self.kv.take().is_some() {
+            crate::store::wait_bg_exit(self.base_threads);
+        }
         ok
     }
 }
